@@ -267,7 +267,12 @@ func formatterFor(e *FuncEnc, p RefParam, fn *ssa.Function, x string, xt types.T
 		return libRes(e, "strconv.FormatBool", 0, []string{x}, []string{"Bool"}, "Str"), true
 	case "string":
 		if p.Format == "date-time" {
-			return "", false
+			// the lossless RFC 3339 layout (sub-second digits kept): W4 holds for it
+			// with either RFC 3339 layout on the parsing side
+			if !isNamed(xt, "time", "Time") {
+				return "", false
+			}
+			return libRes(e, "(time.Time).Format", 0, []string{x, e.D.Lit("2006-01-02T15:04:05.999999999Z07:00")}, []string{e.D.SortOf(xt), "Str"}, "Str"), true
 		}
 		return x, true
 	}
